@@ -355,3 +355,233 @@ example : (∀ e ∈ demoRun, e.Valid = true) ∧
 
 end C07
 end RedisVerif
+
+/-! ## `OneKind` from the history: a key that is only ever WRITTEN as one Redis type -/
+
+namespace RedisVerif
+namespace C07
+
+open Cluster
+
+/-- key `k` is written as strings only (`K = 0`: no `HSET k`) or as hashes only (`K = 5`: no
+    `SET k`) along the history — decidable on the event list; DEL / HDEL do not choose a type -/
+def UsedAs (K : Nat) (k : Nat) : List Ev → Prop
+  | [] => True
+  | .loc _ (.write k' _ _) :: evs => (k' = k → K = 0) ∧ UsedAs K k evs
+  | .loc _ (.hwrite k' _) :: evs => (k' = k → K = 5) ∧ UsedAs K k evs
+  | _ :: evs => UsedAs K k evs
+
+instance decUsedAs (K k : Nat) : (evs : List Ev) → Decidable (UsedAs K k evs)
+  | [] => isTrue trivial
+  | .loc _ (.write _ _ _) :: evs => by
+      have := decUsedAs K k evs; unfold UsedAs; exact inferInstance
+  | .loc _ (.hwrite _ _) :: evs => by
+      have := decUsedAs K k evs; unfold UsedAs; exact inferInstance
+  | .loc _ (.delete _) :: evs => by
+      have := decUsedAs K k evs; unfold UsedAs; exact this
+  | .loc _ (.hdelete _ _) :: evs => by
+      have := decUsedAs K k evs; unfold UsedAs; exact this
+  | .deliver _ _ :: evs => by
+      have := decUsedAs K k evs; unfold UsedAs; exact this
+
+/-- every value of key `k` anywhere in the cluster has kind `K` -/
+def AllKind (c : Cluster) (k K : Nat) : Prop :=
+  (∀ (i : Nat) (s : Shard), c.nodes[i]? = some s → ∀ v, NMap.get s.keys k = some v → v.crdt.kind = K) ∧
+  (∀ m ∈ c.sent, m.key = k → m.val.crdt.kind = K)
+
+/-- the kind of the delta of a local step: chosen by SET / HSET, inherited by DEL / HDEL -/
+theorem local_kind (s : Shard) (op : LOp) (d : RV) (hd : (Shard.step s op.toOp).2 = some d) :
+    (∃ k v e, op = .write k v e ∧ d.crdt.kind = 0) ∨ (∃ k fs, op = .hwrite k fs ∧ d.crdt.kind = 5) ∨
+    (∃ old, NMap.get s.keys op.key = some old ∧ old.crdt.kind = d.crdt.kind) := by
+  cases op with
+  | write k v e =>
+    left
+    simp only [LOp.toOp, Shard.step] at hd
+    have := Option.some.inj hd
+    subst this
+    exact ⟨k, v, e, rfl, rfl⟩
+  | hwrite k fs =>
+    right; left
+    simp only [LOp.toOp, Shard.step] at hd
+    have := Option.some.inj hd
+    subst this
+    exact ⟨k, fs, rfl, rfl⟩
+  | delete k =>
+    right; right
+    simp only [LOp.toOp, Shard.step, LOp.key] at hd ⊢
+    cases hg : NMap.get s.keys k with
+    | none => rw [Shard.recordDelete_none hg] at hd; simp at hd
+    | some rv =>
+      refine ⟨rv, rfl, ?_⟩
+      by_cases hc0 : rv.crdt.kind = 0
+      · obtain ⟨r, hr⟩ := Shard.kind_lww hc0
+        rw [Shard.recordDelete_lww hg hr] at hd
+        have := Option.some.inj hd
+        subst this
+        rw [hc0]; rfl
+      · by_cases hc5 : rv.crdt.kind = 5
+        · obtain ⟨m, hm⟩ := Shard.kind_hash hc5
+          rw [Shard.recordDelete_hash hg hm] at hd
+          have := Option.some.inj hd
+          subst this
+          rw [hc5]; rfl
+        · rw [Shard.recordDelete_other hg hc0 hc5] at hd
+          have := Option.some.inj hd
+          subst this
+          rfl
+  | hdelete k fs =>
+    right; right
+    simp only [LOp.toOp, Shard.step, LOp.key] at hd ⊢
+    cases hg : NMap.get s.keys k with
+    | none => rw [Shard.recordHashDelete_none hg] at hd; simp at hd
+    | some rv =>
+      refine ⟨rv, rfl, ?_⟩
+      by_cases hc5 : rv.crdt.kind = 5
+      · obtain ⟨m, hm⟩ := Shard.kind_hash hc5
+        rw [Shard.recordHashDelete_hash hg hm] at hd
+        have := Option.some.inj hd
+        subst this
+        rw [hc5]; rfl
+      · rw [Shard.recordHashDelete_other hg hc5] at hd; simp at hd
+
+theorem allKind_step {c : Cluster} {k K : Nat} (h : AllKind c k K) (e : Ev)
+    (he : UsedAs K k [e]) : AllKind (c.step e) k K := by
+  cases e with
+  | deliver j idx =>
+    cases hs : c.nodes[j]? with
+    | none => simp only [step, hs]; exact h
+    | some s =>
+      cases hm : c.sent[idx]? with
+      | none => simp only [step, hs, hm]; exact h
+      | some m =>
+        simp only [step, hs, hm]
+        have hjlt : j < c.nodes.length := (List.getElem?_eq_some_iff.mp hs).1
+        have hmmem : m ∈ c.sent := List.mem_of_getElem? hm
+        refine ⟨?_, h.2⟩
+        intro i s' hs' v hg
+        by_cases hij : i = j
+        · subst hij
+          rw [List.getElem?_set_self hjlt] at hs'
+          cases hs'
+          simp only [Shard.applyRemote] at hg
+          rw [NMap.get_insert] at hg
+          by_cases hk : k = m.key
+          · simp only [hk, if_true] at hg
+            have hv := Option.some.inj hg
+            subst hv
+            cases hl : NMap.get s.keys m.key with
+            | none => exact h.2 m hmmem hk.symm
+            | some l =>
+              simp only
+              have hlk := h.1 i s hs l (by rw [hk]; exact hl)
+              have hmk := h.2 m hmmem hk.symm
+              rcases RV.merge_pair l m.val with h1 | h1
+              · have := congrArg Prod.snd h1; simp only at this; rw [this]; exact hlk
+              · have := congrArg Prod.snd h1; simp only at this; rw [this]; exact hmk
+          · simp only [hk, if_false] at hg
+            exact h.1 i s hs v hg
+        · rw [List.getElem?_set_ne (Ne.symm hij)] at hs'
+          exact h.1 i s' hs' v hg
+  | loc i op =>
+    cases hs : c.nodes[i]? with
+    | none => simp only [step, hs]; exact h
+    | some s =>
+      have hilt : i < c.nodes.length := (List.getElem?_eq_some_iff.mp hs).1
+      cases hd : (Shard.step s op.toOp).2 with
+      | none =>
+        simp only [step, hs, hd]
+        rw [Shard.local_none s op hd]
+        have : c.nodes.set i s = c.nodes := by
+          apply List.ext_getElem?
+          intro n
+          by_cases hn : n = i
+          · subst hn; rw [List.getElem?_set_self hilt, hs]
+          · rw [List.getElem?_set_ne (Ne.symm hn)]
+        rw [this]
+        exact h
+      | some d =>
+        simp only [step, hs, hd]
+        have hget := Shard.local_get s op d hd
+        -- the delta has kind K when it is a delta of key k
+        have hdk : op.key = k → d.crdt.kind = K := by
+          intro hkey
+          rcases local_kind s op d hd with ⟨k', v, e', rfl, hk0⟩ | ⟨k', fs, rfl, hk5⟩ | ⟨old, ho, hok⟩
+          · simp only [UsedAs, LOp.key] at he hkey
+            rw [hk0, he.1 hkey]
+          · simp only [UsedAs, LOp.key] at he hkey
+            rw [hk5, he.1 hkey]
+          · rw [← hok]
+            exact h.1 i s hs old (by rw [← hkey]; exact ho)
+        refine ⟨?_, ?_⟩
+        · intro i' s' hs' v hg
+          by_cases hii : i' = i
+          · subst hii
+            rw [List.getElem?_set_self hilt] at hs'
+            cases hs'
+            by_cases hk : k = op.key
+            · rw [hk, hget] at hg
+              cases hg
+              exact hdk hk.symm
+            · rw [Shard.keys_step_other s op k hk] at hg
+              exact h.1 i' s hs v hg
+          · rw [List.getElem?_set_ne (Ne.symm hii)] at hs'
+            exact h.1 i' s' hs' v hg
+        · intro m hm hmk
+          rcases List.mem_append.mp hm with h1 | h1
+          · exact h.2 m h1 hmk
+          · simp only [List.mem_singleton] at h1
+            subst h1
+            exact hdk hmk
+
+theorem usedAs_cons {K k : Nat} {e : Ev} {evs : List Ev} (h : UsedAs K k (e :: evs)) :
+    UsedAs K k [e] ∧ UsedAs K k evs := by
+  cases e with
+  | deliver j idx => exact ⟨trivial, h⟩
+  | loc i op =>
+    cases op with
+    | write k' v e' => exact ⟨⟨h.1, trivial⟩, h.2⟩
+    | hwrite k' fs => exact ⟨⟨h.1, trivial⟩, h.2⟩
+    | delete k' => exact ⟨trivial, h⟩
+    | hdelete k' fs => exact ⟨trivial, h⟩
+
+theorem allKind_run (c : Cluster) (evs : List Ev) {k K : Nat} (h : AllKind c k K)
+    (hu : UsedAs K k evs) : AllKind (c.run evs) k K := by
+  induction evs generalizing c with
+  | nil => exact h
+  | cons e evs ih =>
+    obtain ⟨h1, h2⟩ := usedAs_cons hu
+    exact ih (c.step e) (allKind_step h e h1) h2
+
+/-- a key that the history writes as one Redis type only is `OneKind` -/
+theorem oneKind_of_usage (n : Nat) (causal : Bool) (evs : List Ev) (k K : Nat)
+    (hu : UsedAs K k evs) : OneKind (exec n causal evs) k K := by
+  have h0 : AllKind (init n causal) k K := by
+    refine ⟨?_, by intro m hm; simp [init] at hm⟩
+    intro i s hs v hg
+    simp only [init, List.getElem?_map] at hs
+    cases hr : (List.range n)[i]? with
+    | none => simp [hr] at hs
+    | some x =>
+      simp [hr] at hs
+      subst hs
+      simp [Shard.init] at hg
+  exact (allKind_run _ evs h0 hu).2
+
+/-- **C07 (associativity) for every key the history uses as ONE Redis type** — the hypothesis is
+    on the history (no `SET k` and `HSET k` both), the conclusion about everything reachable -/
+theorem reachable_merge_assoc_of_usage (n : Nat) (causal : Bool) (evs : List Ev)
+    (hv : ∀ e ∈ evs, e.Valid = true) (k K : Nat) (hu : UsedAs K k evs)
+    (a b c : RV) (ha : Reach (exec n causal evs) k a) (hb : Reach (exec n causal evs) k b)
+    (hc : Reach (exec n causal evs) k c) :
+    RV.merge a (RV.merge b c) = RV.merge (RV.merge a b) c :=
+  reachable_merge_assoc n causal evs hv k K (oneKind_of_usage n causal evs k K hu) a b c ha hb hc
+
+/-- non-vacuity, and the cross-kind run is used as neither type -/
+example :
+    UsedAs 0 107 [.loc 0 (.write 107 [1] none), .loc 1 (.delete 107), .loc 1 (.hwrite 108 [(1, [2])]),
+      .deliver 1 0, .loc 1 (.write 107 [3] (some 5))] ∧
+    ¬ UsedAs 0 104 crossKindRun ∧ ¬ UsedAs 5 104 crossKindRun := by
+  decide
+
+end C07
+end RedisVerif
